@@ -18,7 +18,7 @@ RULE = ('seeded value generator (ints of any magnitude, floats incl. -0.0/inf/na
 DISTINCT = ('cells',)
 REQUIRED = ('mode_raw', 'mode_binary_file', 'mode_text_file', 'mode_pickle_inline', 'mode_pickle_file',
             'streams', 'rejected_values', 'jsondisk_roundtrips', 'deque_roundtrips', 'index_roundtrips',
-            'fanout_roundtrips', 'push_roundtrips')
+            'fanout_roundtrips', 'push_roundtrips', 'fault_injected_stores')
 ASSUMPTIONS = ('equality oracle: same type, same bits for floats, same code points, same bytes, recursive for containers',
                'JSONDisk is exercised with JSON fixed-point values only (no tuples, non-str dict keys, bytes)')
 
@@ -349,6 +349,124 @@ def run_containers(dc, sc, res, rng, T, proto):
             sc.drop(d)
 
 
+class FlakyReader:
+    """Binary stream served in small chunks; raises OSError once at the k-th read, then carries on."""
+
+    def __init__(self, data, chunk, fail_at):
+        self.data = data
+        self.pos = 0
+        self.chunk = chunk
+        self.reads = 0
+        self.fail_at = fail_at
+
+    def read(self, size=-1):
+        self.reads += 1
+        if self.reads == self.fail_at:
+            raise OSError(5, 'transient read error (injected)')
+        out = self.data[self.pos:self.pos + self.chunk]
+        self.pos += len(out)
+        return out
+
+
+def fault_roundtrips(dc, sc, res, rng, T):
+    """"A value that cannot be stored is rejected with an exception, never silently altered": one transient fault
+    (OSError at the n-th value-file write / close, or at the k-th read of the source stream) is injected into the
+    store of a file-backed value.  If the store raises, the key must show its previous state; if it returns, the
+    value must round-trip through every accessor."""
+    from .. import fault
+    d = sc.new()
+    cache = dc.Cache(d, disk_min_file_size=T)
+    probe.watch(d)
+    lines = max(4, T // 8)
+    values = [
+        ('bytes_multiline', b''.join(b'line-%05d\n' % i for i in range(lines))),
+        ('text_multiline', ''.join('zeile-%05d\r\n' % i for i in range(lines))),
+        ('pickle_file', ['P' * (T + 100), list(range(50))]),
+        ('bytes_oneline', b'B' * (T + 50)),
+    ]
+    case = Case(res, {'T': T, 'fault_tier': True}, signature)
+    try:
+        n = 0
+        for cls, v in values:
+            for prev in ('absent', 'present'):
+                for how in ('set', 'add', 'push'):
+                    if how != 'set' and prev == 'present':
+                        continue
+                    # count the write gates of this store
+                    ctrl = fault.FailAt(None, kinds=('pre:fwrite', 'pre:fclose'))
+                    probe.set_controller(ctrl)
+                    cache.set('dry', v)
+                    probe.set_controller(None)
+                    cache.delete('dry')
+                    gates = len(ctrl.labels)
+                    for g in sorted({1, 2, max(1, gates // 2), gates}):
+                        n += 1
+                        key = 'f%d' % n
+                        if prev == 'present':
+                            cache.set(key, 'old-value')
+                        ctrl = fault.FailAt(g, kinds=('pre:fwrite', 'pre:fclose'))
+                        probe.set_controller(ctrl)
+                        try:
+                            if how == 'set':
+                                cache.set(key, v)
+                            elif how == 'add':
+                                cache.add(key, v)
+                            else:
+                                key = cache.push(v, prefix='fq')
+                            outcome = 'stored'
+                        except Exception as exc:      # noqa: BLE001
+                            outcome = type(exc).__name__
+                        probe.set_controller(None)
+                        res.count('fault_injected_stores')
+                        res.count('evaluations')
+                        res.seen('cells', ('fault', cls, how, prev, outcome == 'stored', ctrl.fired))
+                        judge_after_fault(cache, res, case, cls, how, key, v, prev, outcome, 'OSError at %s #%d' % (ctrl.fired, g))
+        # transient read errors of the source stream
+        data = bytes((i * 31) % 251 for i in range(5000))
+        for fail_at in (1, 2, 3, 5, 6):
+            for how in ('set', 'add'):
+                n += 1
+                key = 's%d' % n
+                try:
+                    getattr(cache, how)(key, FlakyReader(data, 1000, fail_at), read=True)
+                    outcome = 'stored'
+                except Exception as exc:      # noqa: BLE001
+                    outcome = type(exc).__name__
+                res.count('fault_injected_stores')
+                res.count('evaluations')
+                res.seen('cells', ('fault', 'stream', how, fail_at, outcome == 'stored'))
+                judge_after_fault(cache, res, case, 'stream', how + '(read=True)', key, data, 'absent', outcome,
+                                  'OSError at read #%d of the source stream' % fail_at)
+    finally:
+        probe.set_controller(None)
+        cache.close()
+        sc.drop(d)
+
+
+def judge_after_fault(cache, res, case, cls, how, key, v, prev, outcome, fault_desc):
+    if outcome == 'stored':
+        for acc, got in (('get', cache.get(key)), ('getitem', cache[key]), ('pop', cache.pop(key))):
+            try:
+                ok = case.judge(cls, '%s with %s' % (how, fault_desc), acc, v, got, 'file')
+            except Exception:      # noqa: BLE001
+                ok = False
+            if not ok:
+                return
+    else:
+        try:
+            now = cache.get(key, 'ABSENT')
+        except Exception as exc:       # noqa: BLE001
+            res.violation('after a store rejected with %s (%s) the key cannot be read: %s' % (outcome, fault_desc, type(exc).__name__),
+                          {'class': cls, 'store_path': how})
+            return
+        want = 'old-value' if prev == 'present' else 'ABSENT'
+        if how == 'push':
+            return
+        if now != want:
+            res.violation('store of a %s value via %s was rejected with %s (%s) but the key now reads %s, before it was %s' % (
+                cls, how, outcome, fault_desc, describe(now), want), {'class': cls, 'store_path': how, 'fault': fault_desc})
+
+
 def run_shard(tier, seed, shard, nshards, res):
     dc = common.use_repo()
     probe.install()
@@ -371,3 +489,4 @@ def run_shard(tier, seed, shard, nshards, res):
         rng = common.rng_for(seed, 'c01c', shard)
         T = [0, 1, 16, 32768][shard % 4]
         run_containers(dc, sc, res, rng, T, shard % 6)
+        fault_roundtrips(dc, sc, res, rng, [64, 16, 1000, 32768][shard % 4])
